@@ -6,9 +6,9 @@ from . import C01, util
 
 
 def run(tier, seed, prop='C04'):
-    rep, r = C01.run(tier, seed, prop=prop, units=('Gillespie_SIR', 'Gillespie_SIS'), fast=True)
+    rep, r = C01.run(tier, seed, prop=prop, units=('Gillespie_SIR', 'Gillespie_SIS'), fast=True, sis=True)
     rep.explanation = ('The row invariant is part of the main-loop invariants of Gillespie_SIR / Gillespie_SIS and of the global invariant '
-                       'of the event loop of fast_nonMarkov_SIR (hence fast_SIR): it is established at entry, preserved by every '
+                       'of the event loops of fast_nonMarkov_SIR (hence fast_SIR) and fast_SIS: it is established at entry, preserved by every '
                        'iteration / event (queue rule), and implies the postcondition over the returned (trimmed) arrays, for all '
                        'graphs, rates, horizons, weights and initial sets. "ends with no infected node" is proved for the Gillespie '
                        'simulators (unbounded horizon, gamma>0).')
@@ -18,7 +18,7 @@ def run(tier, seed, prop='C04'):
                            'one 7-node graph with an isolated node, 3 (tmin, tmax) combinations, weighted / unweighted, rate 0, fixed delays tying with tmax, 4 seeds, every simulator incl. the discrete and generic ones'))
     r = util.native_replayer
     rep.not_covered += [
-        'fast_SIS, fast_nonMarkov_SIS, Gillespie_simple_contagion, Gillespie_complex_contagion, basic_discrete_SIS: row invariant not under contract (only the bounded native stand-in); discrete_SIR: see C12',
+        'fast_nonMarkov_SIS, Gillespie_simple_contagion, Gillespie_complex_contagion, basic_discrete_SIS: row invariant not under contract (only the bounded native stand-in); discrete_SIR: see C12; Gillespie_complex_contagion: see C15',
         'fast_nonMarkov_SIR: "unbounded horizon ends with no infected node" needs "every infectious node has a pending recovery", which is not part of the proved global invariant',
         'termination',
     ]
